@@ -542,6 +542,271 @@ def fromOpenqasm (p : Program) : Except Err Circuit :=
   let c : Circuit := { np := cmds.countP (isQregOf .p), ne := cmds.countP (isQregOf .e), nc := cmds.countP isCreg, ops := [] }
   parseCmds c 0 cmds
 
+
+/-! ## `from_openqasm` on the text itself (whitespace, header split, removal of gate declarations, regex / slicing glue) -/
+
+def isDigitC (c : Char) : Bool := '0'.toNat ≤ c.toNat && c.toNat ≤ '9'.toNat
+
+/-- `int(s)` for a string of ASCII digits (`none` = ValueError: empty or a non-digit) -/
+def readNat (s : Str) : Option Nat :=
+  if s.isEmpty then none
+  else s.foldl (fun acc c => acc.bind fun n => if isDigitC c then some (10 * n + (c.toNat - '0'.toNat)) else none) (some 0)
+
+/-- Python slice `s[a:len(s)-b]` (the `s[a:-b]` of the parser, `b > 0`) -/
+def pySlice (a b : Nat) (s : Str) : Str := (s.take (s.length - b)).drop a
+
+def isPrefixL : Str → Str → Bool
+  | [], _ => true
+  | _ :: _, [] => false
+  | a :: as, b :: bs => a == b && isPrefixL as bs
+
+/-- `pat in s` -/
+def containsSub (pat : Str) : Str → Bool
+  | [] => pat.isEmpty
+  | c :: cs => isPrefixL pat (c :: cs) || containsSub pat cs
+
+/-- `s.count(pat)` (non-overlapping, `pat` non-empty) -/
+def countSub (pat : Str) (s : Str) : Nat :=
+  let rec go (fuel : Nat) (s : Str) : Nat :=
+    match fuel, s with
+    | 0, _ => 0
+    | _, [] => 0
+    | fuel + 1, c :: cs => if isPrefixL pat (c :: cs) then 1 + go fuel ((c :: cs).drop pat.length) else go fuel cs
+  go (s.length + 1) s
+
+/-- `s.replace(pat, "")` (`pat` non-empty) -/
+def removeAll (pat : Str) (s : Str) : Str :=
+  let rec go (fuel : Nat) (s : Str) : Str :=
+    match fuel, s with
+    | 0, s => s
+    | _, [] => []
+    | fuel + 1, c :: cs => if isPrefixL pat (c :: cs) then go fuel ((c :: cs).drop pat.length) else c :: go fuel cs
+  go (s.length + 1) s
+
+/-- `s.split(sep)` for a single character -/
+def splitOn (sep : Char) (s : Str) : List Str :=
+  let r := s.foldr (fun c (acc : Str × List Str) => if c = sep then ([], acc.1 :: acc.2) else (c :: acc.1, acc.2)) ([], [])
+  r.1 :: r.2
+
+/-- `s.split()`: split on runs of spaces, dropping empty pieces (only spaces are left as whitespace at that point) -/
+def splitWs (s : Str) : List Str := (splitOn ' ' s).filter (fun t => !t.isEmpty)
+
+/-- `s.strip()` for spaces -/
+def stripSp (s : Str) : Str := ((s.dropWhile (· = ' ')).reverse.dropWhile (· = ' ')).reverse
+
+/-- the first match of `gate[^}]*{[^}]*}` in `s`: a "gate" followed (before the first '}') by some '{' — the match runs
+    up to and including that first '}' -/
+def findGateDecl : Nat → Str → Option Str
+  | 0, _ => none
+  | _, [] => none
+  | fuel + 1, c :: cs =>
+    if isPrefixL "gate".toList (c :: cs) then
+      let after := (c :: cs).drop 4
+      let seg := after.takeWhile (· ≠ '}')
+      if seg.length < after.length && seg.contains '{' then some ((c :: cs).take (4 + seg.length + 1))
+      else findGateDecl fuel cs
+    else findGateDecl fuel cs
+
+/-- the `while search_match is not None` loop that strips gate declarations -/
+def stripGateDecls : Nat → Str → Str
+  | 0, s => s
+  | fuel + 1, s =>
+    match findGateDecl (s.length + 1) s with
+    | none => s
+    | some m => stripGateDecls fuel (removeAll m s)
+
+/-- first match of `<one of heads><digits>+<tail>` in `s`: returns (head char, digits) -/
+def searchReg (heads : List Char) (tail : Str) : Str → Option (Char × Str)
+  | [] => none
+  | c :: cs =>
+    let ds := cs.takeWhile isDigitC
+    if heads.contains c && !ds.isEmpty && isPrefixL tail (cs.drop ds.length) then some (c, ds)
+    else searchReg heads tail cs
+
+/-- `re.search(r"\)[a-z](p|e)(\d)+\[", s).group(0)[1]` -/
+def searchGateLetter : Str → Option Char
+  | ')' :: g :: t :: rest =>
+    let ds := rest.takeWhile isDigitC
+    if isLower g && (t = 'p' || t = 'e') && !ds.isEmpty && isPrefixL ['['] (rest.drop ds.length) then some g
+    else searchGateLetter (g :: t :: rest)
+  | _ :: rest => searchGateLetter rest
+  | [] => none
+
+def regTOfChar (c : Char) : Option RegT := if c = 'e' then some .e else if c = 'p' then some .p else none
+
+/-- `_parse_if(command)` on text -/
+def parseIfText (cmd : Str) : Except Err (Char × QReg × Nat) :=
+  let ns := cmd.filter (· ≠ ' ')
+  match searchReg ['c'] "==1".toList ns with
+  | none => .error .attribute
+  | some (_, cds) =>
+    match readNat cds with
+    | none => .error .value
+    | some cr =>
+      match searchGateLetter ns with
+      | none => .error .attribute
+      | some g =>
+        match searchReg ['p', 'e'] "[".toList cmd with
+        | none => .error .attribute
+        | some (t, ds) =>
+          match readNat ds, regTOfChar t with
+          | some i, some rt => .ok (g, ⟨rt, i⟩, cr)
+          | _, _ => .error .value
+
+/-- a register token `<type><digits>…` read with `tok[0]` and `int(tok[1:-k])`; the type character is kept raw because
+    the operation constructors assert on it only later -/
+def regToken (k : Nat) (tok : Str) : Except Err (Char × Nat) :=
+  match tok with
+  | [] => .error .index
+  | t :: _ =>
+    match readNat (pySlice 1 k tok) with
+    | none => .error .value
+    | some i => .ok (t, i)
+
+/-- constructors assert `reg_type == "e" or reg_type == "p"` -/
+def qregOfRaw (t : Char) (i : Nat) : Except Err QReg :=
+  match regTOfChar t with
+  | some rt => .ok ⟨rt, i⟩
+  | none => .error .assertion
+
+/-- construct `k(register=reg, reg_type=t)` from a raw type character: a TypeError (wrong signature) comes before the
+    assertion on the register type -/
+def mkOneRaw (k : Cls) (t : Char) (i : Nat) : Except Err Op :=
+  match k with
+  | .g1 _ | .measZ => (qregOfRaw t i).bind (mkOne k)
+  | _ => .error .type
+
+/-- the single-register branch on text -/
+def parseOneQubitText (cmd : Str) : Except Err Op :=
+  let bd := splitWs cmd
+  match bd with
+  | name :: tok :: _ =>
+    match regToken 3 tok with
+    | .error e => .error e
+    | .ok (t, i) =>
+      match nameToClass name with
+      | some k => mkOneRaw k t i
+      | none =>
+        let circuitList := (tokenise name).map nameToClass
+        if circuitList.any Option.isNone then .error .assertion
+        else
+          -- OneQubitGateWrapper.__init__: the base class asserts on reg_type before the list is checked
+          match qregOfRaw t i with
+          | .error e => .error e
+          | .ok q => mkWrapperOpt circuitList q
+  | _ => .error .index
+
+/-- the two-register branch on text (the tokens are read left to right: a bad first token raises before a missing
+    second one is noticed) -/
+def parseTwoQubitText (cmd : Str) : Except Err Op :=
+  match splitWs cmd with
+  | name :: tok1 :: more =>
+    match regToken 4 tok1 with
+    | .error e => .error e
+    | .ok (t1, i1) =>
+      match more with
+      | [] => .error .index
+      | tok2 :: _ =>
+        match regToken 3 tok2 with
+        | .error e => .error e
+        | .ok (t2, i2) =>
+          match nameToClass name with
+          | none => .error .assertion
+          | some k =>
+            match k with
+            | .g2 _ | .gc _ =>
+              match qregOfRaw t1 i1, qregOfRaw t2 i2 with
+              | .ok a, .ok b => mkCtrl k a b
+              | _, _ => .error .assertion
+            | _ => .error .type
+  | _ => .error .index
+
+/-- one loop iteration of `from_openqasm` on text commands: operation to add and number of further commands consumed -/
+def parseStepText (cmd : Str) (rest : List Str) : Except Err (Option Op × Nat) :=
+  if containsSub "qreg".toList cmd || containsSub "creg".toList cmd || containsSub "barrier".toList cmd || cmd.isEmpty then
+    .ok (none, 0)
+  else if containsSub "measure".toList cmd && containsSub "->".toList cmd then
+    match searchReg ['e', 'p'] "[0]".toList cmd with
+    | none => .error .attribute
+    | some (qt, qds) =>
+      match searchReg ['c'] "[0]".toList cmd with
+      | none => .error .attribute
+      | some (_, cds) =>
+        match readNat qds, readNat cds, regTOfChar qt with
+        | some qi, some ci, some rt =>
+          let q : QReg := ⟨rt, qi⟩
+          let c1 := rest.getD 0 []
+          let c3 := rest.getD 2 []
+          if 3 ≤ rest.length && containsSub "if".toList c1 && containsSub "reset".toList c3 then
+            match parseIfText c1 with
+            | .error e => .error e
+            | .ok (gate, tq, cr) =>
+              match splitOn ' ' (stripSp c3) with
+              | _ :: resetStr :: _ =>
+                match resetStr with
+                | [] => .error .index
+                | rt' :: _ =>
+                  match readNat (pySlice 1 3 resetStr) with
+                  | none => .error .value
+                  | some ri =>
+                    if rt' ≠ qt then .error .assertion
+                    else if ri ≠ qi then .error .assertion
+                    else match mkCctrl (nameToClass ("classical reset ".toList ++ [gate])) q tq cr with
+                      | .error e => .error e
+                      | .ok op => .ok (some op, 3)
+              | _ => .error .index
+          else if 1 ≤ rest.length && containsSub "if".toList c1 then
+            match parseIfText c1 with
+            | .error e => .error e
+            | .ok (gate, tq, cr) =>
+              match mkCctrl (nameToClass ("classical ".toList ++ [gate])) q tq cr with
+              | .error e => .error e
+              | .ok op => .ok (some op, 1)
+          else .ok (some (.meas q ci), 0)
+        | _, _, _ => .error .value
+  else if countSub "[0]".toList cmd = 1 then
+    match parseOneQubitText cmd with
+    | .error e => .error e
+    | .ok op => .ok (some op, 0)
+  else if countSub "[0]".toList cmd = 2 then
+    match parseTwoQubitText cmd with
+    | .error e => .error e
+    | .ok op => .ok (some op, 0)
+  else .error .value
+
+def parseCmdsText (c : Circuit) (skip : Nat) : List Str → Except Err Circuit
+  | [] => .ok c
+  | s :: rest =>
+    match skip with
+    | k + 1 => parseCmdsText c k rest
+    | 0 =>
+      match parseStepText s rest with
+      | .error e => .error e
+      | .ok (none, k) => parseCmdsText c k rest
+      | .ok (some op, k) =>
+        match c.add op with
+        | .error e => .error e
+        | .ok c' => parseCmdsText c' k rest
+
+/-- `CircuitDAG.from_openqasm(qasm_script)` -/
+def fromOpenqasmText (script : Str) : Except Err Circuit :=
+  let s := script.filter (fun c => c = ' ' || !isWs c)
+  match splitOn ';' s with
+  | [_] =>
+    -- no ';' at all: the header assertion is evaluated first, then `script_list[1]` raises
+    if s.filter (fun c => !isWs c) ≠ "OPENQASM2.0".toList then .error .assertion else .error .index
+  | header :: restParts =>
+    if header.filter (fun c => !isWs c) ≠ "OPENQASM2.0".toList then .error .assertion else
+    let body := joinStr ";".toList restParts
+    let body := stripGateDecls (body.length + 1) body
+    let cmds := splitOn ';' body
+    let c : Circuit :=
+      { np := cmds.countP (fun c => containsSub "qregp".toList (c.filter (· ≠ ' '))),
+        ne := cmds.countP (fun c => containsSub "qrege".toList (c.filter (· ≠ ' '))),
+        nc := cmds.countP (fun c => containsSub "creg".toList c), ops := [] }
+    parseCmdsText c 0 cmds
+  | [] => .error .index
+
 /-! ## JSON -/
 
 structure JOp where
